@@ -11,14 +11,18 @@ GLASSES = [['glass', 'N-BK7', 'schott'], ['glass', 'N-SF11', 'schott'],
            ['glass', 'SF6', 'schott'], ['glass', 'N-LAK9', 'schott'],
            ['glass', 'F2', 'schott'], ['glass', 'N-SK16', 'schott'],
            ['glass', 'N-F2', 'schott'], ['glass', 'N-SF5', 'schott'],
-           ['glass', 'N-BAK4', 'schott'], ['glass', 'N-LASF9', 'schott']]
+           ['glass', 'N-BAK4', 'schott'], ['glass', 'N-LASF9', 'schott'],
+           # the same name from several vendors (distinct data files)
+           ['glass', 'F2', 'hikari'], ['glass', 'F2', 'cdgm'],
+           ['glass', 'SF4', 'schott'], ['glass', 'SF4', 'hikari'],
+           ['glass', 'K5', 'hikari']]
 
 ALL_FEATURES = ['conic', 'asphere', 'poly', 'cheby', 'tilt', 'decenter',
                 'mirror', 'glass', 'abbe', 'absorb', 'finite_obj', 'vignette',
                 'coat_simple', 'coat_fresnel', 'polarized', 'aperture',
                 'bsdf', 'multi_wl', 'units', 'fno', 'na', 'obj_height',
                 'int_coeffs', 'glass_str', 'planes', 'stop_any', 'telecentric',
-                'shared_material', 'glass_window']
+                'shared_material', 'glass_window', 'nested_cs']
 
 
 def pick_features(ch, allowed=None, p=0.3):
@@ -56,9 +60,14 @@ def _medium(ch, feats):
             k = ch.rounded(ch.loguniform(1e-8, 1e-6), 3)
         return ['ideal', n, k]
     if kind == 'glass':
+        if ch.chance(0.3):
+            # one name, several vendors, in the same lens
+            return list(ch.pick([g for g in GLASSES if g[1] in
+                                 ('F2', 'SF4')], tag='glass2'))
         return list(ch.pick(GLASSES, tag='glass'))
     if kind == 'glass_str':
-        g = ch.pick(GLASSES, tag='glass')
+        g = ch.pick([g_ for g_ in GLASSES if g_[1] in ('F2', 'SF4')]
+                    if ch.chance(0.5) else GLASSES, tag='glass')
         if ch.chance(0.5):
             return ['glass_tuple', g[1], g[2]]
         return ['glass_str', g[1]]
@@ -213,6 +222,22 @@ def gen_lens(ch, feats, nsurf=None, harsh=False, max_surf=12):
             op['bsdf'] = ['lambertian'] if ch.chance(0.4) else \
                 ['gaussian', ch.rounded(ch.uniform(0.001, 0.05), 3)]
         ops.append(op)
+    if 'nested_cs' in feats:
+        # one surface handed over as a ready-made object whose coordinate
+        # system hangs off a rotated / shifted parent system
+        cands = [o for o in ops[2:] if o.get('stype') == 'standard'
+                 and 'coating' not in o and 'bsdf' not in o]
+        if cands:
+            o = ch.pick(cands, tag='nested')
+            o['via_object'] = {'parent': {
+                'x': ch.rounded(ch.uniform(-0.2, 0.2), 3),
+                'y': ch.rounded(ch.uniform(-0.2, 0.2), 3),
+                'rx': ch.rounded(ch.uniform(-0.03, 0.03), 3),
+                'ry': ch.rounded(ch.uniform(-0.03, 0.03), 3),
+                'rz': ch.rounded(ch.uniform(-0.5, 0.5), 3)}}
+            o['via_object']['gap'] = ops[ops.index(o) - 1]['thickness']
+            o.setdefault('rx', ch.rounded(ch.uniform(-0.02, 0.02), 3))
+            o.setdefault('ry', ch.rounded(ch.uniform(-0.02, 0.02), 3))
     # ---- image
     ops.append({'op': 'add_surface', 'index': nsurf + 1})
     # ---- aperture
